@@ -15,8 +15,8 @@
 use nom::{
     branch::alt,
     bytes::complete::{tag, tag_no_case},
-    character::complete::{char, i32, i64, multispace0, u64},
-    combinator::{cond, map, map_res, opt, value},
+    character::complete::{char, i32, i64, multispace0, one_of, u64},
+    combinator::{cond, map, map_res, not, opt, value},
     error::{Error as NomError, ErrorKind},
     multi::{many0, separated_list1},
     number::complete::double,
@@ -343,8 +343,13 @@ fn path_value(input: &[u8]) -> IResult<&[u8], PathValue<'_>> {
         value(PathValue::Null, tag("null")),
         value(PathValue::Boolean(true), tag("true")),
         value(PathValue::Boolean(false), tag("false")),
-        map(u64, |v| PathValue::Number(Number::UInt64(v))),
-        map(i64, |v| PathValue::Number(Number::Int64(v))),
+        // an integer followed by a fraction or an exponent is a double
+        map(terminated(u64, not(one_of(".eE"))), |v| {
+            PathValue::Number(Number::UInt64(v))
+        }),
+        map(terminated(i64, not(one_of(".eE"))), |v| {
+            PathValue::Number(Number::Int64(v))
+        }),
         map(double, |v| PathValue::Number(Number::Float64(v))),
         map(string, PathValue::String),
     ))(input)
